@@ -12,10 +12,12 @@
 (*                                                                                        *)
 (* events                                                                                 *)
 (*  chol   Cholesky(upper)(As, bs) on a batch: out = "value" | "raise"                    *)
-(*  ls     one matrix (all its right-hand sides) of a batched PINV and a batched LSTSQ   *)
+(*  ls     one matrix (all its right-hand sides) of a batched PINV and a batched LSTSQ    *)
 (*         call                                                                           *)
 (*  cg     CG(maxiter, tol)(A, b, x0, M) on a lattice instance (dense/CSR/COO/BSR)        *)
 (*  big    sampled instance of order 4..40 (Mode R): only integer error measures          *)
+(* Inputs scaled by powers of two (A 2^a, b 2^c) are logged unscaled: positive             *)
+(* definiteness, rank, relative errors and exact-CG iteration counts do not change.       *)
 EXTENDS Naturals, Integers, Sequences, FiniteSets, TLC, Json, IOUtils
 
 Traces == JsonDeserialize(IOEnv.TRACE_FILE)
@@ -27,21 +29,19 @@ S == INSTANCE Solvers WITH
        UseX0 <- FALSE, X0Max <- 0, PrecMax <- 0, PrecFull <- FALSE, TolD <- CgTolD,
        ph <- "trace", A <- <<>>, b <- <<>>, x0 <- <<>>, M <- <<>>, cg <- [pc |-> "idle"]
 
-VARIABLES tid, l, st, verdict      \* st = [judged |-> events with a judged (non-tie) outcome so far]
+VARIABLES tid, l, st, verdict      \* st = [judged |-> events consumed so far]
 
 \* ---------------------------------------------------------------- tolerances (fixed constants)
 TolUlps  == 256     \* lattice instances: measured <= 8 on the correct code (float32 and float64)
 TolNres  == 256     \* normal-equation residual in the same unit: measured <= 7
-TolBig   == 64      \* sampled instances: (error / amplification) <= TolBig * n; measured <= 3 n
-CapUlps  == 1000000000
+TolBig   == 64      \* sampled instances: measure <= TolBig * n * 2^amp (see BigClause); measured <= n * 2^amp
 \* documented CG bound |b - A x| <= tol |b|, in units of 1e-9, with 1/64 slack for the rounding of
 \* the recurrence residual against the true one
 CgAllowed(t) == t + t \div 64 + 1
 
-Pow2(k) == IF k = 0 THEN 1 ELSE 2 ^ k
 Idx(q) == 1..Len(q)
-Above(q, t)  == \E k \in Idx(q) : q[k] > t                         \* some entry of a vector exceeds t
-Above2(qq, t) == \E k \in Idx(qq) : Above(qq[k], t)                \* ... of a list of vectors
+Above(q, t)   == \E k \in Idx(q) : q[k] > t                         \* some entry of a vector exceeds t
+Above2(qq, t) == \E k \in Idx(qq) : Above(qq[k], t)                 \* ... of a list of vectors
 
 \* ---------------------------------------------------------------- clauses
 CholClause(e) ==
@@ -78,18 +78,26 @@ CgClause(e) ==
               IF e.maxiter > 0 THEN "not_converged_in_exact_iterations" ELSE "residual_above_tol"
          [] OTHER -> "ok"
 
-\* sampled instances: the harness measured, in exact rational arithmetic,
-\*   ferr = |x - x*|_inf / (eps |x*|_inf)   against the exact (min-norm) solution x*, or
-\*   nres = |A'(A x - b)|_inf / (eps |A'|_inf (|b|_inf + |A|_inf |x|_inf)), both capped;
-\* amp = log2 of the amplification the input allows (condition number; 0 for residual measures)
+\* sampled instances (orders 4..40): the harness measured, in exact rational arithmetic,
+\*   ferr = |x - x*|_inf / (eps |x*|_inf)                  against the exact (min-norm) solution x*
+\*   bres = |b - A x|_inf / (eps (|A|_inf |x|_inf + |b|_inf))            (backward-stable solvers)
+\*   nres = |A'(A x - b)|_inf / (eps |A'|_inf (|b|_inf + |A|_inf |x|_inf))     (normal equations)
+\* and logs elog = ceil(log2(measure)); amp = log2 of the amplification the input allows for the
+\* measure (ceil log2 cond for an explicit pseudo-inverse solve, twice that for a least-squares
+\* forward error, 0 for the residual measures).  Judged:  measure <= TolBig * n * 2^amp.
+RECURSIVE CeilLog2(_)
+CeilLog2(k) == IF k <= 1 THEN 0 ELSE 1 + CeilLog2((k + 1) \div 2)
+BigAllowedLog(e) == e.amp + CeilLog2(TolBig) + CeilLog2(e.n)
 BigClause(e) ==
   CASE e.expect = "raise" -> IF e.out = "raise" THEN "ok" ELSE "nonpd_not_raised"
     [] e.out = "raise" -> "raised"
     [] e.solver = "cg" ->
          IF e.bzero THEN (IF e.zero THEN "ok" ELSE "b0_not_zero")
          ELSE IF e.rel_e9 > CgAllowed(e.tol_e9) THEN "residual_above_tol" ELSE "ok"
-    [] e.measure = "ferr" /\ e.err \div Pow2(e.amp) > TolBig * e.n -> "solution_error"
-    [] e.measure = "nres" /\ e.err \div Pow2(e.amp) > TolBig * e.n -> "normal_equations"
+    [] e.elog > BigAllowedLog(e) ->
+         CASE e.measure = "ferr" -> "solution_error"
+           [] e.measure = "bres" -> "residual_error"
+           [] OTHER -> "normal_equations"
     [] OTHER -> "ok"
 
 Clause(e) ==
